@@ -19,20 +19,27 @@ TRUSTED = ["CPython 3.12", "spverif.ref.models.VerifModel (DESIGN appendix A: my
 ASSUMPTIONS = ["single-threaded use; reports are well-formed Service1Tm objects with subservice 1..8"]
 
 N_TC = 3
-_ENV = None
+_ENVS = {}
+# telecommand sets (apid, sequence count): set 0 = unrelated ids; the others differ in a single high bit of one field,
+# so that a key that loses that bit (mask / shift slip in the request id) makes two telecommands collide
+TC_SETS = {0: [(0x11, 100), (0x16, 101), (0x1B, 102)],
+           1: [(0x2A, 21), (0x2A, 21 + 1024), (0x2A, 21 + 8192)],
+           2: [(0x12A, 7), (0x52A, 7), (0x12A, 7 + 256)],
+           3: [(0x7FF, 0x3FFF), (0x3FF, 0x3FFF), (0x7FF, 0x1FFF)]}
+CUR_SET = 0
 
 
-def env():
+def env(set_id=None):
     """Pre-built telecommands, request ids and report objects (add_tm does not modify the report)."""
-    global _ENV
-    if _ENV is not None:
-        return _ENV
+    set_id = CUR_SET if set_id is None else set_id
+    if set_id in _ENVS:
+        return _ENVS[set_id]
     from spacepackets.ecss.tc import PusTc
     from spacepackets.ecss.pus_verificator import PusVerificator, StatusField
     from spacepackets.ecss.pus_1_verification import Service1Tm, Subservice, VerificationParams, FailureNotice
     from spacepackets.ecss.req_id import RequestId
     from spacepackets.ecss.fields import PacketFieldEnum
-    tcs = [PusTc(service=17, subservice=1, apid=0x11 + 5 * i, seq_count=100 + i) for i in range(N_TC)]
+    tcs = [PusTc(service=17, subservice=1, apid=a, seq_count=c) for a, c in TC_SETS[set_id]]
     rids = [RequestId.from_pus_tc(t) for t in tcs]
     keys = [r.as_u32() for r in rids]
     letters = []
@@ -49,8 +56,11 @@ def env():
     for t in range(N_TC):
         letters.append(("remove_entry", t))
     letters.append(("remove_completed",))
-    _ENV = dict(PusVerificator=PusVerificator, tcs=tcs, rids=rids, keys=keys, letters=letters, StatusField=StatusField)
-    return _ENV
+    from spverif.ref import pus as _P
+    keys_model = [int.from_bytes(_P.request_id(0, 1, 1, a, 3, c), "big") for a, c in TC_SETS[set_id]]
+    assert len(set(keys_model)) == N_TC
+    _ENVS[set_id] = dict(PusVerificator=PusVerificator, tcs=tcs, rids=rids, keys=keys_model, letters=letters, StatusField=StatusField)
+    return _ENVS[set_id]
 
 
 def letter_name(L):
@@ -65,7 +75,7 @@ def snap(v):
     """Whole verif_dict as plain data keyed by the 32-bit request id."""
     out = {}
     for k, s in v.verif_dict.items():
-        out[k.as_u32()] = {"accepted": int(s.accepted), "started": int(s.started), "step": int(s.step), "completed": int(s.completed),
+        out[int.from_bytes(bytes(k.pack()), "big")] = {"accepted": int(s.accepted), "started": int(s.started), "step": int(s.step), "completed": int(s.completed),
                            "step_list": list(s.step_list), "all": bool(s.all_verifs_recvd)}
     return out
 
@@ -182,10 +192,12 @@ def run_history(ctx, idxs, case, cover=None):
 COVER = {"states": set(), "transitions": set()}
 
 
-def k_history(ctx, idxs):
+def k_history(ctx, idxs, tc_set=0):
+    global CUR_SET
+    CUR_SET = tc_set
     E = env()
-    case = {"k": "history", "idxs": list(idxs), "letters": [letter_name(E["letters"][i]) for i in idxs][:40]}
-    ctx.case(f"history/len={'<=4' if len(idxs) <= 4 else '5+'}", tuple(idxs), nontrivial=any(E["letters"][i][0] == "add_tm" for i in idxs),
+    case = {"k": "history", "idxs": list(idxs), "tc_set": tc_set, "letters": [letter_name(E["letters"][i]) for i in idxs][:40]}
+    ctx.case(f"history/set={tc_set}/len={'<=4' if len(idxs) <= 4 else '5+'}", (tc_set,) + tuple(idxs), nontrivial=any(E["letters"][i][0] == "add_tm" for i in idxs),
              sample=case if len(idxs) <= 12 else None)
     run_history(ctx, idxs, case, COVER)
 
@@ -217,11 +229,20 @@ def run(ctx):
             if ctx.mine(i):
                 k_history(ctx, hist)
     ctx.exhaustive.append(f"all histories of length 1..{depth} over the 37-letter alphabet ({sum(37 ** d for d in range(1, depth + 1))} histories)")
+    # the sets of nearly identical request ids: all histories to depth 2 (thorough: 3), then random ones
+    for ts in (1, 2, 3):
+        for d in range(1, (2 if ctx.quick else 3) + 1):
+            i = 0
+            for hist in itertools.product(range(n), repeat=d):
+                i += 1
+                if ctx.mine(i):
+                    k_history(ctx, hist, ts)
+    ctx.exhaustive.append("all histories of length 1..2 (thorough: 3) for three further telecommand sets whose request ids differ in one high bit only")
     # random long histories, biased towards registering first
     weights = [4 if L[0] == "add_tc" else 1 for L in E["letters"]]
-    for _ in range(ctx.n(600, 80_000)):
+    for j in range(ctx.n(800, 80_000)):
         ln = r.randrange(20, 201)
-        k_history(ctx, r.choices(range(n), weights=weights, k=ln))
+        k_history(ctx, r.choices(range(n), weights=weights, k=ln), j % 4)
     ctx.extra["transitions_list"] = sorted([list(a), b] for a, b in COVER["transitions"])
     ctx.extra["abstract_state_space"] = {"states": 162, "transitions": 162 * 8}
     ctx.extra["states_list"] = sorted(list(s) for s in COVER["states"])
